@@ -27,6 +27,23 @@ INF = float("inf")
 TORCH_CONTRACTS = set()
 
 
+class NaNValue:
+    """a NaN cell (e.g. the placeholder nodes of a flat trie): may be stored, indexed, copied and discarded under CONCRETE
+    conditions; isfinite is False; any arithmetic, comparison or symbolic selection on it is outside the model"""
+
+    def _no(self, *a):
+        raise Unsupported("arithmetic or comparison on a NaN cell")
+
+    __add__ = __radd__ = __sub__ = __rsub__ = __mul__ = __rmul__ = __truediv__ = __rtruediv__ = __neg__ = _no
+    __lt__ = __le__ = __gt__ = __ge__ = _no
+
+    def __repr__(self):
+        return "NaN"
+
+
+NAN = NaNValue()
+
+
 def _c(name):
     TORCH_CONTRACTS.add(name)
 
@@ -167,8 +184,10 @@ def _is_ninf(x):
 
 
 def sc_where(c, a, b):
-    if isinstance(c, bool):
+    if isinstance(c, (bool, np.bool_)):
         return a if c else b
+    if a is NAN or b is NAN:
+        raise Unsupported("selection between a NaN cell and a value under a symbolic condition")
     if _is_ninf(a) or _is_ninf(b) or isinstance(a, NegGuarded) or isinstance(b, NegGuarded):
         def split(x):
             if isinstance(x, NegGuarded):
@@ -271,12 +290,29 @@ def _g(kind, plain):
     return f
 
 
-sc_add_g = _g("add", sc_add)
+_sc_add_pg = _g("add", sc_add)
+
+
+def sc_add_g(a, b):
+    """addition over finite, possibly-+inf (Guarded) and possibly--inf (NegGuarded) scalars: -inf + finite = -inf"""
+    if isinstance(a, NegGuarded) or isinstance(b, NegGuarded) or _is_ninf(a) or _is_ninf(b):
+        fa, va = ng_split(a)
+        fb, vb = ng_split(b)
+        f = sc_or(fa, fb)
+        if f is True:
+            return -INF
+        v = sc_add(va, vb)
+        return v if f is False else NegGuarded(z3.simplify(f) if is_z3(f) else f, v)
+    return _sc_add_pg(a, b)
+
+
 sc_min_g = _g("min", sc_min)
 
 
 def ng_split(x):
     """(is -inf, finite value) of a -inf-or-finite scalar"""
+    if x is NAN:
+        raise Unsupported("a NaN cell where a number is needed")
     if isinstance(x, NegGuarded):
         return x.ninf, x.val
     if _is_ninf(x):
@@ -1001,6 +1037,12 @@ def m_masked_fill_(I, t, mask, value):
 @method("masked_select")
 def m_masked_select(I, t, mask):
     a, m = np.broadcast_arrays(t.a, CT.wrap(mask).a)
+    if all(isinstance(c, (bool, np.bool_)) for c in m.reshape(-1)):  # concrete mask: an ordinary 1-D tensor
+        sel = [v for c, v in zip(m.reshape(-1), a.reshape(-1)) if c]
+        out = np.empty((len(sel),), dtype=object)
+        for i, v in enumerate(sel):
+            out[i] = v
+        return CT(out, t.dtype)
     return MaskedSel(list(m.reshape(-1)), list(a.reshape(-1)), t.dtype)
 
 
@@ -1344,6 +1386,33 @@ def m_repeat(I, t, *reps):
     if len(reps) == 1 and isinstance(reps[0], (tuple, list)):
         reps = tuple(reps[0])
     return CT(np.tile(t.a, reps), t.dtype)
+
+
+@method("repeat_interleave")
+def m_repeat_interleave(I, t, repeats, dim=None):
+    if not isinstance(repeats, int):
+        raise Unsupported("repeat_interleave with a tensor of repeats")
+    if dim is None:
+        return CT(np.repeat(t.a.reshape(-1), repeats), t.dtype)
+    return CT(np.repeat(t.a, repeats, axis=_dim(t, dim)), t.dtype)
+
+
+def f_isfinite(I, t):
+    def fin(x):
+        if x is NAN:
+            return False
+        if isinstance(x, NegGuarded):
+            return sc_not(x.ninf)
+        if isinstance(x, Guarded):
+            return sc_not(x.pinf)
+        if is_inf(x):
+            return False
+        return True  # a symbolic real is finite (NaN is not modelled)
+    return CT.ew(fin, t, dtype="bool")
+
+
+FUNCS["torch.isfinite"] = METHODS["isfinite"] = f_isfinite
+_c("isfinite: false exactly at the tracked +-inf entries")
 
 
 @method("matmul", "mm")
